@@ -56,7 +56,6 @@ instance {α} [ToJ α] : ToJ (M α) := ⟨fun r => match r with
 /-- igraph 1.0 `permute_vertices`: vertex `k` of the result is vertex `p[k]` of the argument
 (used only by the harness environment) -/
 def permuteVertices10 (ig : IGraph) (p : List Int) : IGraph :=
-  let n := ig.names.length
   let inv : Int → Int := fun old => Int.ofNat (p.idxOf old)
   ⟨p.map (fun i => ig.names.getD i.toNat 0), p.map (fun i => ig.attrs.getD i.toNat Dict.empty),
    ig.edges.map (fun e => (inv e.1, inv e.2))⟩
@@ -94,6 +93,7 @@ def harnessEnv (table : List ((List Int × List Val × List (Int × Int)) × Lis
     | .sc (.int i) => fmt6Tok (pyStrInt i)
     | _ => py!"?"
   shuffle := fun _ k l => (shuffles.lookup (k, l)).getD l
+  layout := fun _ => Dict.empty
   nowStamp := py!"0101700000"
   version := py!"0.1.0"
 
